@@ -19,7 +19,9 @@ RULE = ("all call shapes: form in {Predicate subclass, @symbolic_function functi
         "order x source of every argument (query variable x, attribute x.a, second variable y, concrete int); the call "
         "log of the harness-defined bodies gives: nothing runs at construction when an argument is symbolic, one "
         "invocation per candidate binding with every parameter bound to the value written in its position, and the "
-        "query's answers equal filtering the domain with the concrete call; all-concrete calls run once, immediately. "
+        "query's answers equal filtering the domain with the concrete call; all-concrete calls run once, immediately; "
+        "plus pairs of DIFFERENT callables that share module and qualified name but declare their parameters in another "
+        "order or number, used one after the other in both orders. "
         "non-trivial = shapes with at least one symbolic and one positional argument")
 ASSUMPTIONS = ["a Predicate called with concrete arguments returns the predicate instance, whose call gives the truth value"]
 BOUNDS = {"quick": {"arity": 3, "defaults": 2}, "thorough": {"arity": 3, "defaults": 2, "domains": "two orders"}}
@@ -126,13 +128,118 @@ def cases(tier, seed):
     for form in ("pred", "func", "meth"):
         for s in shapes():
             out.append((form,) + s)
+    # homonyms: two DIFFERENT callables with the same module and qualified name (made by a factory, redefined, ...)
+    # whose parameters come in different orders; both are used in one process, in both orders of first use
+    for form in ("func", "pred"):
+        for orders in ((("p1", "p2"), ("p2", "p1")), (("p1", "p2", "p3"), ("p3", "p1", "p2")), (("p1", "p2"), ("p1", "p2", "p3"))):
+            for first in (0, 1):
+                for k in (0, 1, 2):
+                    for srcs in itertools.product(("x", "x.a", "y", "conc"), repeat=2):
+                        if all(s_ == "conc" for s_ in srcs):
+                            continue
+                        out.append(("homonym", form, orders, first, k, srcs))
     return out
+
+
+def make_homonym(form, order):
+    """a fresh callable named `same_name` / `SameName` whose parameters are declared in the given order"""
+    from krrood.entity_query_language.predicate import Predicate, symbolic_function
+    import sys, types
+    sys.modules.setdefault("homonyms", types.ModuleType("homonyms"))
+    ns = {"Predicate": Predicate, "symbolic_function": symbolic_function, "dataclass": dataclass, "LOG": LOG, "truth": truth,
+          "__name__": "homonyms"}
+    args = ", ".join(f"{p}={p}" for p in sorted(order))
+    sargs = ", ".join(f"{p}=self.{p}" for p in sorted(order))
+    if form == "func":
+        exec(f"""
+@symbolic_function
+def same_name({', '.join(order)}):
+    LOG.append(("same_name", dict({args})))
+    return truth({args})
+""", ns)
+        return ns["same_name"]
+    fields = "\n".join(f"    {p}: object" for p in order)
+    exec(f"""
+@dataclass(eq=False)
+class SameName(Predicate):
+{fields}
+    def __call__(self):
+        LOG.append(("SameName", dict({sargs})))
+        return truth({sargs})
+""", ns)
+    return ns["SameName"]
+
+
+def run_homonym(case):
+    from krrood.entity_query_language.entity import entity, set_of, let
+    from krrood.entity_query_language.quantify_entity import an
+    from krrood.entity_query_language.symbolic import SymbolicExpression
+    _, form, orders, first, k, srcs = case
+    res = CaseResult()
+    res.features = {"homonym:" + form}
+    X = [PItem("x0", 0), PItem("x1", 1), PItem("x2", 2), PItem("x3", 3)]
+    Y = [PItem("y0", 0), PItem("y1", 1)]
+    targets = [make_homonym(form, orders[0]), make_homonym(form, orders[1])]
+    seq = [first, 1 - first]
+    outcome = []
+    for which in seq:
+        order = orders[which]
+        x = let(PItem, list(X), name="x")
+        y = let(PItem, list(Y), name="y")
+        sym = {"x": x, "x.a": x.a, "y": y, "conc": 7}
+        conc = lambda s_, bx, by: bx if s_ == "x" else bx.a if s_ == "x.a" else by if s_ == "y" else 7
+        given = list(srcs) + ["conc"] * (len(order) - 2)  # the written arguments, in declaration order
+        pos = [sym[s_] for s_ in given[:k]]
+        kw = {order[i]: sym[given[i]] for i in range(k, len(order))}
+        label = (f"two callables named same_name, declared ({', '.join(orders[0])}) and ({', '.join(orders[1])}); "
+                 f"{'second' if which != first else 'first'} used: the one declared ({', '.join(order)}) called as "
+                 f"({', '.join(given[:k])}{', ' if k and kw else ''}{', '.join(f'{a}={given[order.index(a)]}' for a in kw)})")
+
+        def expected_params(bx, by):
+            return {order[i]: conc(given[i], bx, by) for i in range(len(order))}
+        del LOG[:]
+        try:
+            r = targets[which](*pos, **kw)
+            if not isinstance(r, SymbolicExpression):
+                res.failures.append(Failure("ran-at-construction", f"{label}: returned {r!r} instead of a condition"))
+                return res
+            uses_y = "y" in srcs
+            uses_x = any(s_ in ("x", "x.a") for s_ in srcs)
+            if uses_x and uses_y:
+                rows = [(row[x], row[y]) for row in an(set_of([x, y], r)).evaluate()]
+            elif uses_y:
+                rows = [(None, o) for o in an(entity(y, r)).evaluate()]
+            else:
+                rows = [(o, None) for o in an(entity(x, r)).evaluate()]
+        except Exception as e:
+            res.failures.append(Failure("crash", f"{label}: {type(e).__name__}: {e}"))
+            return res
+        cands = [(bx, by) for bx in (X if uses_x else [None]) for by in (Y if uses_y else [None])]
+        exp_rows = [(bx, by) for bx, by in cands if truth(**expected_params(bx, by))]
+        key = lambda rows: sorted((a.name if a else "-", b.name if b else "-") for a, b in rows)
+        calls = [e[1] for e in LOG]
+        exp_calls = [expected_params(bx, by) for bx, by in cands]
+        norm = lambda cs: sorted((tuple((k_, getattr(v, "name", v)) for k_, v in sorted(c.items())) for c in cs), key=repr)
+        if norm(calls) != norm(exp_calls):
+            res.failures.append(Failure("misbound-parameters", f"{label}: body invoked {len(calls)}x with {norm(calls)[:2]}..., "
+                                                               f"expected {len(exp_calls)}x with {norm(exp_calls)[:2]}..."))
+            return res
+        if key(rows) != key(exp_rows):
+            res.failures.append(Failure("wrong-answers", f"{label}: answers {key(rows)}, filtering with the concrete call gives {key(exp_rows)}"))
+            return res
+        outcome.append(tuple(key(rows)))
+    if k >= 1:
+        res.nontrivial_key = case
+    res.outcome_key = ("homonym", tuple(outcome))
+    return res
 
 
 def run_case(case):
     from krrood.entity_query_language.entity import entity, set_of, let
     from krrood.entity_query_language.quantify_entity import an
     from krrood.entity_query_language.symbolic import SymbolicExpression
+    if case[0] == "homonym":
+        return run_homonym(case)
     ns = define_all()
     form, n, d, given, k, korder, srcs = case
     res = CaseResult()
@@ -243,7 +350,7 @@ def cluster_key(case, f):
 
 def finish(run):
     if run.exhaustive and not run.failures:
-        for k in ("form:pred", "form:func", "form:meth", "concrete", "symbolic"):
+        for k in ("form:pred", "form:func", "form:meth", "concrete", "symbolic", "homonym:func", "homonym:pred"):
             if not run.features.get(k):
                 raise HarnessError("vacuous: " + k)
 
